@@ -339,6 +339,9 @@ func (x *Exec) doExportContinue(op *Op) {
 	er := &StepRec{Idx: x.steps, OpIndex: x.opIndex, Kind: "export", Op: op, Pre: pre, Post: post, Height: post.Height, Time: post.Time}
 	x.logf("%d export h=%d d=%s", er.Idx, er.Height, post.Digest()[:16])
 	x.runOracles(er)
+	if !x.stopped {
+		exportStepRules(x, pre, post)
+	}
 	if x.stopped {
 		return
 	}
@@ -375,4 +378,40 @@ func snapHasNon20(s *Snap) bool {
 		}
 	}
 	return false
+}
+
+// exportStepRules: what a zero-height export and restart must leave alone, judged for whichever property is armed:
+// the governance parameters the property depends on, and every context's batch counter.
+func exportStepRules(x *Exec, pre, post *Snap) {
+	type dep struct{ prop, what string; same bool }
+	a, b := pre.Params, post.Params
+	deps := []dep{
+		{"C02", "service fee tax", a.ServiceFeeTax.Equal(b.ServiceFeeTax)},
+		{"C01", "service fee tax", a.ServiceFeeTax.Equal(b.ServiceFeeTax)},
+		{"C13", "service fee tax", a.ServiceFeeTax.Equal(b.ServiceFeeTax)},
+		{"C04", "slash fraction", a.SlashFraction.Equal(b.SlashFraction)},
+		{"C03", "slash fraction / arbitration / complaint periods", a.SlashFraction.Equal(b.SlashFraction) && a.ArbitrationTimeLimit == b.ArbitrationTimeLimit && a.ComplaintRetrospect == b.ComplaintRetrospect},
+		{"C04", "minimum deposit parameters", a.MinDeposit.IsEqual(b.MinDeposit) && a.MinDepositMultiple == b.MinDepositMultiple},
+		{"C14", "minimum deposit parameters", a.MinDeposit.IsEqual(b.MinDeposit) && a.MinDepositMultiple == b.MinDepositMultiple},
+		{"C08", "maximum request timeout", a.MaxRequestTimeout == b.MaxRequestTimeout},
+		{"C06", "maximum request timeout", a.MaxRequestTimeout == b.MaxRequestTimeout},
+	}
+	for _, d := range deps {
+		if x.armed[d.prop] && !d.same {
+			x.viol(d.prop, "params_changed_by_export", fmt.Sprintf("the %s in force before the zero-height export is not the one in force on the restarted chain", d.what), nil)
+			return
+		}
+	}
+	if x.armed["C10"] || x.armed["C09"] {
+		for _, id := range pre.CtxIDs() {
+			if q, ok := post.Ctx[id]; ok && q.BatchCounter != pre.Ctx[id].BatchCounter {
+				p := "C10"
+				if !x.armed["C10"] {
+					p = "C09"
+				}
+				x.viol(p, "counter_changed_by_export", fmt.Sprintf("context %s: batch counter %d before the export, %d on the restarted chain", id[:12], pre.Ctx[id].BatchCounter, q.BatchCounter), nil)
+				return
+			}
+		}
+	}
 }
